@@ -313,7 +313,7 @@ def main(eng) -> int:
             "truncated_by_budget": truncated,
             "runs_per_hour": int(total["evaluations"] / max(wall, 1e-9) * 3600),
             "events_total": total["events"],
-            "simulated_time_note": "no clocks/timers exist on any property's path; simulated time = logical event count (events_total)",
+            "simulated_time_note": getattr(eng, "SIMULATED_TIME_NOTE", "no clocks/timers exist on this property's path; simulated time = logical event count (events_total)"),
             "faults_fired": dict(sorted(total["faults"].items())),
             "probes": dict(sorted(total["probes"].items())),
             "inadmissible_cases": total["inadmissible"],
